@@ -8,6 +8,8 @@ From WW.Proofs Require Import ArithLemmas CPSwapProofs ListLemmas CPProofs FeesP
 From WW Require Stable3Pool.
 From WW.Proofs Require Stable3PoolProofs.
 From WW.Props Require C04.
+From WW Require Vault.
+From WW.Proofs Require VaultProofs.
 
 (* for every history from a fresh pool: pending = charged - transferred; all-time counters = sums of charges *)
 Theorem C07_ledger_identity : forall c0 c1 f n own ops, fees_ok f -> (1 <= n)%nat ->
@@ -73,6 +75,22 @@ Theorem C07_trio_ledgers_over_histories : forall amp h f kinds n p0 l,
   Stable3Pool.p_all p' = Stable3Pool.zip3 Z.add (Stable3Pool.p_fee p') c' /\ Stable3Pool.p_burn p' = b' /\ Stable3PoolProofs.pool_inv p'.
 Proof. exact WW.Props.C04.C04_ledgers_over_histories. Qed.
 
+(* vault (machine of the C05/C06 development): per-operation ledger facts. A completed loan whose callback takes no further
+   loan books exactly floor(share*loan) as protocol fee (all-time counter, and pending unless the callback collected) and
+   burns exactly the burn fee; a collection empties the pending ledger, leaves the counters and the depositors' backing
+   unchanged. (Nested loans on one vault: known finding of C05/C06.) *)
+Theorem C07_vault_loan_charges : forall z s st st', VaultProofs.Inv st -> Vault.loan_free s = true ->
+  Vault.flash_loan Vault.ADV z (Vault.run_script z s) st = Ok st' ->
+  Vault.bal st + VaultProofs.fee_p st z + VaultProofs.fee_f st z <= Vault.bal st' /\
+  Vault.burned st' = Vault.burned st + VaultProofs.fee_b st z /\ Vault.allf st' = Vault.allf st + VaultProofs.fee_p st z /\
+  Vault.pend st' <= Vault.pend st + VaultProofs.fee_p st z /\ Vault.counter st' = Vault.counter st /\ Vault.supply st' <= Vault.supply st.
+Proof. exact VaultProofs.loan_settles_unnested. Qed.
+
+Theorem C07_vault_collect_frame : forall st st', VaultProofs.Inv st -> Vault.collect st = Ok st' ->
+  VaultProofs.Q st st' /\ Vault.pend st' = 0 /\ Vault.allf st' = Vault.allf st /\ Vault.burned st' = Vault.burned st /\
+  Vault.backing st' = Vault.backing st /\ Vault.lp st' = Vault.lp st.
+Proof. exact VaultProofs.collect_Q. Qed.
+
 (* non-vacuity: a history with charges on both assets, a collection that sends one entry and keeps the other *)
 Definition ex7_fees := mkFees 20000000000000000 3000000000000000 5000000000000000.
 Definition ex7_ops : list op :=
@@ -93,3 +111,5 @@ Print Assumptions C07_collect_frame.
 Print Assumptions C07_burn_leaves_circulation.
 Print Assumptions C07_unfixed_collect_refuted.
 Print Assumptions C07_trio_ledgers_over_histories.
+Print Assumptions C07_vault_loan_charges.
+Print Assumptions C07_vault_collect_frame.
